@@ -470,6 +470,66 @@ theorem guarded_body_needs_capability (db : Db) (now : Int) (m : Msg) (P : Str) 
     exact absurd hk (hlack c' hc)
   | _ => rfl
 
+/-! ## re-dispatch sites: whose message reaches the gate -/
+
+/-- at every re-dispatch site but the scheduler's (and `acmd`, which dispatches nothing) the gate
+is asked about the message being handled: the capability hypothesis of the gate theorems is about
+the caller whose message it is -/
+theorem site_msg_is_current (s : Site) (cur stored : RawMsg) (h1 : s ≠ .scheduled) (h2 : s ≠ .acmd) :
+    siteMsg s cur stored = some cur := by
+  cases s <;> simp_all [siteMsg]
+
+/-- a scheduled command is gated against the message of the caller who scheduled it (on the
+database as it is when the event fires), never against whoever happens to be talking -/
+theorem site_msg_scheduled (cur stored : RawMsg) : siteMsg .scheduled cur stored = some stored := rfl
+
+/-- hence: a command replayed by the scheduler for a caller who is not (or no longer) an owner never
+reaches an `Owner` command, whoever is talking when it fires -/
+theorem scheduled_owner_command_refused (db : Db) (now : Int) (cur stored : RawMsg) (sm : Str) (strict : Bool)
+    (P : Str) (cmd : List Str) (r : RawMsg)
+    (hr : siteMsg .scheduled cur stored = some r)
+    (hP : canonicalName P = ownerS) (hdef : antiOwnerS ∈ db.defaults)
+    (hu : NotOwner db now stored.pfx) :
+    gate db now (r.toMsg sm strict) P cmd ≠ .allow := by
+  have : r = stored := by simpa [siteMsg] using hr.symm
+  subst this
+  exact gate_antiowner db now _ P cmd hP hdef hu
+
+def wOwner : User := { id := 1, name := ['b', 'o', 's', 's'], caps := [ownerS],
+                       hostmasks := [['o', '!', 'o', '@', 'h']] }
+def wOp : User := { id := 2, name := ['o', 'p'], caps := [['#', 'c', ',', 'o', 'p']],
+                    hostmasks := [['p', '!', 'p', '@', 'h']] }
+def wDb : Db := { Db.initial with users := [wOwner, wOp] }
+
+/-- FULL STATEMENT (false on the pinned tree, finding C01-trigger-runs-as-speaker): "a stored
+command is gated against the caller who stored it":
+  ∀ site cur stored, siteMsg site cur stored = some r → r.pfx = (whoever issued the command text).pfx
+For `MessageParser` the command text was issued by the user who added the trigger, the message is
+the speaker's.  Proved part: `site_msg_is_current` / `site_msg_scheduled` (what reaches the gate);
+counter-example: the trigger added by a channel op (not an owner) runs an `Owner` command when the
+owner speaks. -/
+theorem trigger_runs_with_speakers_authority :
+    NotOwner wDb 0 ['p', '!', 'p', '@', 'h'] ∧
+    (∃ r, siteMsg .trigger ⟨['o', '!', 'o', '@', 'h'], ['#', 'c']⟩ ⟨['p', '!', 'p', '@', 'h'], ['#', 'c']⟩ = some r ∧
+      gate wDb 0 (r.toMsg [] false) ['O', 'w', 'n', 'e', 'r'] [['f', 'l', 'u', 's', 'h']] = .allow) := by
+  constructor
+  · intro u hu
+    have : u = wOp := by
+      have h2 : wDb.recognise 0 ['p', '!', 'p', '@', 'h'] = some wOp := by decide
+      rw [h2] at hu; exact (Option.some.inj hu).symm
+    subst this
+    right; decide
+  · exact ⟨_, rfl, by decide⟩
+
+/-- the same adder, speaking himself, is refused (the gate is sound for the message it is given) -/
+example : gate wDb 0 (RawMsg.toMsg [] false ⟨['p', '!', 'p', '@', 'h'], ['#', 'c']⟩) ['O', 'w', 'n', 'e', 'r'] [['f', 'l', 'u', 's', 'h']] = .denied ownerS := by
+  decide
+
+/-- `msg.channel` is a function of `args[0]` alone; with `strictRfc` off a STATUSMSG prefix is
+stripped, so `@#chan` is gated like `#chan` -/
+example : msgChannel ['@', '+'] false ['@', '#', 'c'] = some ['#', 'c'] := by decide
+example : msgChannel ['@', '+'] true ['@', '#', 'c'] = none := by decide
+
 /-! ## ignored callers -/
 
 /-- **ignored_silent**: when `ircdb.checkIgnored(msg.prefix)` is true `Owner.doPrivmsg` returns
